@@ -264,6 +264,26 @@ func (o OneOfSchema[KeyType]) validateMap(data map[string]any) (KeyType, Object,
 	// Validate that it has the discriminator field.
 	// If it doesn't, fail
 	// If it does, pass the non-discriminator fields into the ValidateCompatibility method for the object
+	selectedTypeIDAsserted, selectedSchema, err := o.selectTypeFromMap(data)
+	if err != nil {
+		return nilKey, nil, err
+	}
+	cloneData := o.deleteDiscriminator(data)
+	err = selectedSchema.ValidateCompatibility(cloneData)
+	if err != nil {
+		return nilKey, nil, &ConstraintError{
+			Message: fmt.Sprintf(
+				"validation failed for OneOfSchema. Failed to validate as selected schema type '%T' from discriminator value '%v' (%s)",
+				selectedSchema, selectedTypeIDAsserted, err),
+		}
+	}
+	return selectedTypeIDAsserted, selectedSchema, nil
+}
+
+// selectTypeFromMap finds the member type a map value selects through its discriminator field, without
+// looking at the rest of the value.
+func (o OneOfSchema[KeyType]) selectTypeFromMap(data map[string]any) (KeyType, Object, error) {
+	var nilKey KeyType
 	selectedTypeID := data[o.DiscriminatorFieldNameValue]
 	if selectedTypeID == nil {
 		return nilKey, nil, &ConstraintError{
@@ -287,15 +307,6 @@ func (o OneOfSchema[KeyType]) validateMap(data map[string]any) (KeyType, Object,
 			Message: fmt.Sprintf(
 				"validation failed for OneOfSchema. Discriminator value '%v' is invalid. Expected one of: %v",
 				selectedTypeIDAsserted, o.getTypeValues()),
-		}
-	}
-	cloneData := o.deleteDiscriminator(data)
-	err := selectedSchema.ValidateCompatibility(cloneData)
-	if err != nil {
-		return nilKey, nil, &ConstraintError{
-			Message: fmt.Sprintf(
-				"validation failed for OneOfSchema. Failed to validate as selected schema type '%T' from discriminator value '%v' (%s)",
-				selectedSchema, selectedTypeIDAsserted, err),
 		}
 	}
 	return selectedTypeIDAsserted, selectedSchema, nil
@@ -394,7 +405,10 @@ func (o OneOfSchema[KeyType]) findUnderlyingType(data any) (KeyType, Object, err
 				),
 			}
 		}
-		myKey, mySchemaObj, err := o.validateMap(dataMap)
+		// Only select the member here. The value itself is validated (or serialized) by the caller with the
+		// member's own Validate / Serialize; running the member's compatibility check on unserialized data
+		// rejected values Unserialize had produced (e.g. struct-mapped sub-objects) and lost error paths.
+		myKey, mySchemaObj, err := o.selectTypeFromMap(dataMap)
 		if err != nil {
 			return nilKey, nil, err
 		}
